@@ -5,7 +5,8 @@ import json, os, shutil, subprocess, sys
 pid = sys.argv[1]
 ks = sys.argv[2:] or ["1", "2", "3"]
 WT = f"/tmp/mut_{pid}"
-OUT = f"/tmp/mut_{pid}_out"
+ROUND = os.environ.get("ROUND", "")          # ROUND=2: second batch of blind mutants (/tmp/mut_<pid>_out2 -> seeded/<pid>-r2-<k>)
+OUT = f"/tmp/mut_{pid}_out{ROUND}"
 check_pid = os.environ.get("CHECK_PID", pid)
 def sh(cmd, **kw):
     p = subprocess.run(cmd, shell=True, stdout=subprocess.PIPE, stderr=subprocess.STDOUT, text=True, **kw)
@@ -36,7 +37,7 @@ for k in ks:
     print(f"{pid}-{k}: demo_clean_rc={rc0} demo_mut_rc={rc1} suite='{ot.strip()[-40:]}' confirmed={ok} check_rc={rcc} violations={len(viol)} nfif={'no-failing-input-found' in oc}")
     if not ok:
         continue
-    dst = f"/verif/seeded/{pid}-{k}"
+    dst = f"/verif/seeded/{pid}-{'r' + ROUND + '-' if ROUND else ''}{k}"
     os.makedirs(dst, exist_ok=True)
     for f in ("patch.diff", "demo.py"):
         shutil.copy(f"{src}/{f}", f"{dst}/{f}")
